@@ -108,6 +108,16 @@ void token_pool_free(void) {
 	}
 }
 
+#ifdef MMD6_VERIF
+/// Verification hook: report the state of the shared token pool (observation only)
+void verif_token_pool_state(long * count, long * has_pool, long * slabs, long * remaining) {
+	* count = token_pool_count;
+	* has_pool = (token_pool != NULL);
+	* slabs = token_pool ? (long) token_pool->allocated->size : -1;
+	* remaining = (token_pool && token_pool->next) ? (long) (((char *) token_pool->last - (char *) token_pool->next) / token_pool->object_size) : -1;
+}
+#endif
+
 #endif
 
 
